@@ -17,6 +17,8 @@ VARIANTS = {
                 '-fno-sanitize-recover=all -fno-omit-frame-pointer -UNDEBUG -D' + GUARD),
     # plain optimisation but hooks ON and assertions enabled (fast white-box drivers)
     'hook': dict(btype='None', cflags='-Wno-error -O2 -g -UNDEBUG -D' + GUARD),
+    # ThreadSanitizer build (data races in the threaded coders), hooks ON
+    'tsan': dict(btype='None', cflags='-Wno-error -O1 -g -fsanitize=thread -fno-omit-frame-pointer -UNDEBUG -D' + GUARD, tools_off=True),
     # as 'hook', with every pthread synchronisation call of mythread.h routed through harness/sched_perturb.c
     'mt': dict(btype='None', cflags='-Wno-error -O2 -g -UNDEBUG -D' + GUARD +
                ' -Dpthread_mutex_lock=verif_mutex_lock -Dpthread_mutex_unlock=verif_mutex_unlock'
